@@ -40,6 +40,10 @@ func semverish(level int, prefixes G, arMin, arMax int) G {
 		// numeric oddities in the core
 		Seq(prefixes, Lit("01.0.0", "1.01.0", "1.0.01", "00.0.0", "2147483647.0.0", "2147483648.0.0", "9223372036854775807.0.0", "9223372036854775808.0.0", "18446744073709551616.0.0", "1.0.000000000000000000002")),
 	)
+	// pre-release lists of 5, 6 and 8 identifiers (fixed-size scratch arrays)
+	bit := Lit("0", "1")
+	long := func(n int) G { return Seq(prefixes[:1], Lit("1.0.0-"), Join(bit, Lit("."), n, n)) }
+	out = Alt(out, long(5), long(6), Seq(prefixes[:1], Lit("1.0.0-"), Join(Lit("1", "a"), Lit("."), 8, 8)))
 	if level > 0 {
 		pre3 := Seq(Lit("-"), Lit("0", "1", "a", "-"), Rep(Seq(Lit("."), Lit("0", "1", "a", "-")), 0, 3))
 		coreT := core
